@@ -70,10 +70,14 @@ LS = {"none": "", "dflt": "languagesystem DFLT dflt;\n",
       "dflt+latn": "languagesystem DFLT dflt;\nlanguagesystem latn dflt;\n"}
 
 WRITER_LISTS = ["default", "lib", "kern-only", "ellipsis+custom", "perm0", "perm1", "perm2", "perm3",
-                "perm4", "perm5"]
+                "perm4", "perm5",
+                # the same three writers named in the UFO lib (the custom GSUB writer by module path), read
+                # with featureWriters=None ("libperm") or through the ellipsis placeholder ("libell")
+                "libperm0", "libperm1", "libperm2", "libperm3", "libperm4", "libperm5",
+                "libell0", "libell1", "libell2", "libell3", "libell4", "libell5"]
 
 
-def make_spec(ls, ops, lib_writers=False):
+def make_spec(ls, ops, lib_writers=False, lib_mode="skip"):
     glyphs = {".notdef": {"width": 500, "contours": [B.box(50, 0, 450, 700)]}}
     for n, uv in (("a", 0x61), ("b", 0x62), ("a.alt", None), ("f_i", None), ("ka-deva", 0x915),
                   ("ta-deva", 0x924), ("acutecomb", 0x301), ("anusvara-deva", 0x902), ("nukta-deva", 0x93C)):
@@ -96,7 +100,12 @@ def make_spec(ls, ops, lib_writers=False):
             "lib": {"public.openTypeCategories": {"a": "base", "b": "base", "f_i": "ligature", "acutecomb": "mark",
                                                   "anusvara-deva": "mark", "nukta-deva": "mark",
                                                   "ka-deva": "base", "ta-deva": "base", "a.alt": "base"}}}
-    if lib_writers:
+    if isinstance(lib_writers, (list, tuple)):
+        entry = {"C": {"module": "props.gsub_writer_c17", "class": "CustomGSUBWriter"},
+                 "K": {"class": "KernFeatureWriter", "options": {"mode": lib_mode}},
+                 "M": {"class": "MarkFeatureWriter", "options": {"mode": lib_mode}}}
+        spec["lib"]["com.github.googlei18n.ufo2ft.featureWriters"] = [dict(entry[x]) for x in lib_writers]
+    elif lib_writers:
         spec["lib"]["com.github.googlei18n.ufo2ft.featureWriters"] = [
             {"class": "KernFeatureWriter", "options": {"mode": "skip"}},
             {"class": "MarkFeatureWriter"}]
@@ -124,8 +133,10 @@ def writer_list(kind, mode):
     from ufo2ft.featureWriters import (CursFeatureWriter, GdefFeatureWriter, KernFeatureWriter,
                                        MarkFeatureWriter)
     C = custom_gsub_writer()
-    if kind in ("default", "lib"):
+    if kind in ("default", "lib") or kind.startswith("libperm"):
         return None
+    if kind.startswith("libell"):
+        return [...]
     if kind == "kern-only":
         return [KernFeatureWriter(mode=mode)]
     if kind == "ellipsis+custom":
@@ -261,7 +272,10 @@ class C17(Property):
         ctr = {"states": 1, "marker_blocks": 0, "protected_blocks": 0, "gsub_identity_checks": 0,
                "writer_order_checks": 0}
         viols = []
-        spec = make_spec(head["ls"], ops, lib_writers=(head["writers"] == "lib"))
+        libw = head["writers"] == "lib"
+        if head["writers"].startswith(("libperm", "libell")):
+            libw = list(itertools.permutations(["C", "K", "M"]))[int(head["writers"][-1])]
+        spec = make_spec(head["ls"], ops, lib_writers=libw, lib_mode=head["mode"])
         names = list(spec["glyphs"])
         user_flat = flatten(parse(spec["features"], names))
         writers = writer_list(head["writers"], head["mode"])
@@ -352,12 +366,14 @@ class C17(Property):
             if table_bytes(tt, "GSUB") != table_bytes(tt0, "GSUB"):
                 viols.append(violation("gsub-changed-by-writers", feat, user=spec["features"]))
         # (5) position independence of a GSUB-producing writer
-        if head["writers"].startswith("perm"):
+        if head["writers"].startswith(("perm", "libperm", "libell")):
             ctr["writer_order_checks"] = 1
+            if not head["writers"].startswith("perm"):
+                ctr["lib_listed_gsub_writer_checks"] = 1
             ref_spec = make_spec(head["ls"], ops)
             ref_spec["features"] += "feature ss01 {\n    sub a by a.alt;\n} ss01;\n"
             from ufo2ft.featureWriters import KernFeatureWriter, MarkFeatureWriter
-            perm = list(itertools.permutations(["C", "K", "M"]))[int(head["writers"][4:])]
+            perm = list(itertools.permutations(["C", "K", "M"]))[int(head["writers"][-1])]
             mk = {"K": KernFeatureWriter, "M": MarkFeatureWriter}
             ref, _ = compile_font(ref_spec, [mk[x](mode=head["mode"]) for x in perm if x != "C"])
             if table_bytes(tt, "GPOS") != table_bytes(ref, "GPOS"):
